@@ -138,7 +138,7 @@ def obligations(tier, seed):
         obs.append(Ob(PROP, 'roundtrip', dict(n=n), budget=240 if q else 1500, bound=dict(rows=n, dump_batch='1..%d' % (n + 1), load_batch='1..%d' % (n + 1))))
         if n <= (4 if q else 7):
             obs.append(Ob(PROP, 'roundtrip', dict(n=n, path=True), budget=240 if q else 1500, bound=dict(rows=n, file='path + open_obj', dump_batch='1..%d' % (n + 1), load_batch='1..%d' % (n + 1))))
-    for (n, bs, lb) in ((17, 8, 5), (20, 16, 32), (33, 32, 7), (10, 3, 4), (64, 9, 64), (65, 64, 3)) if q else ((17, 8, 5), (20, 16, 32), (33, 32, 7), (10, 3, 4), (64, 9, 64), (65, 64, 3), (129, 128, 10), (200, 7, 33), (256, 256, 255)):
+    for (n, bs, lb) in ((17, 8, 5), (20, 16, 32), (33, 32, 7), (10, 3, 4), (64, 9, 64), (65, 64, 3), (130, 64, 7), (300, 300, 50), (257, 1024, 1024)) if q else ((17, 8, 5), (20, 16, 32), (33, 32, 7), (10, 3, 4), (64, 9, 64), (65, 64, 3), (129, 128, 10), (200, 7, 33), (256, 256, 255), (130, 64, 7), (300, 300, 50), (257, 1024, 1024), (1025, 1024, 100), (600, 1, 600)):
         obs.append(Ob(PROP, 'big', dict(n=n, bs=bs, lb=lb), budget=240 if q else 900, group='larger files (concrete sizes, symbolic values)', bound=dict(rows=n, dump_batch=bs, load_batch=lb)))
     obs.append(Ob(PROP, 'roundtrip', dict(n=3, _twin='reach'), budget=60, expect='refute'))
     return obs
